@@ -167,5 +167,5 @@ func TestC01Range(t *testing.T) {
 			run(c, t.Fatalf)
 		}
 	}
-	rapid.Check(t, func(rt *rapid.T) { run(genRangeCase(rt), rt.Fatalf) })
+	checkBudget(t, func(rt *rapid.T) { run(genRangeCase(rt), rt.Fatalf) })
 }
